@@ -1,0 +1,16 @@
+//go:build verif
+
+package esql
+
+import (
+	"github.com/bmeg/grip/gdbi"
+	"github.com/bmeg/grip/timestamp"
+	"github.com/jmoiron/sqlx"
+)
+
+// VerifNewGraphDB builds a GraphDB around an injected connection, without
+// sqlx.Connect (verification hook, build tag `verif`).
+func VerifNewGraphDB(db *sqlx.DB, graphs []*Schema) gdbi.GraphDB {
+	ts := timestamp.NewTimestamp()
+	return &GraphDB{db, graphs, &ts}
+}
